@@ -214,7 +214,7 @@ def main(argv=None):
             rmeta.append(("wit", r, w))
     robs = run_replay(rjobs, n_proc=args.jobs)
 
-    violations, divergences, inconclusive, unconfirmed = [], [], [], []
+    violations, divergences, inconclusive, unconfirmed, real_only = [], [], [], [], []
     validated = unvalidated = 0
     known_confirmed = {}
     os.makedirs(os.path.join(ROOT, "replays", prop), exist_ok=True)
@@ -226,7 +226,13 @@ def main(argv=None):
         if kind == "viol" and not item.get("exact", True) and not agree:
             # counterexample on a path that depends on uninterpreted functions (or inexact inputs): the solver's values for
             # those need not be the real ones, so a non-reproducing model is an artefact of the abstraction, not a divergence
-            unconfirmed.append(f"{r['instance']} [{item['label']}] inputs={item['inputs']}")
+            # does the violation survive when the inputs are pinned to the binary64 values actually sent to the real library?
+            gi = next(i for i, H in enumerate(HARNESSES[prop]) if H.group == r["group"])
+            again = _work((prop, gi, r["instance"], r["params"], [], dict(opts, max_witness=0), item["inputs"]))
+            if not again["inconclusive"] and not any(v["label"] == item["label"] for v in again["violations"]):
+                real_only.append(f"{r['instance']} [{item['label']}]")
+                continue
+            unconfirmed.append(f"{r['instance']} [{item['label']}] inputs={item['inputs']}" + (f" traceback={item['tb'][-600:]!r}" if item.get("tb") else ""))
             continue
         if kind == "wit":
             if not item["exact"]:
@@ -292,7 +298,7 @@ def main(argv=None):
 
         evidence.write(prop, args.tier, seed, results, HARNESSES[prop], dict(
             validated=validated, unvalidated=unvalidated, violations=len(violations), divergences=len(divergences),
-            inconclusive=inconclusive[:50], suppressed=suppressed, known_confirmed=sorted(known_confirmed), queries=queries, wall=wall,
+            inconclusive=inconclusive[:50], real_only=real_only[:50], suppressed=suppressed, known_confirmed=sorted(known_confirmed), queries=queries, wall=wall,
             functions=sorted(_collect_functions(results))))
     if violations:
         return 1
